@@ -3,6 +3,7 @@ package c16
 import (
 	"bufio"
 	crand "crypto/rand"
+	"encoding/hex"
 	"encoding/json"
 	"fmt"
 	"io"
@@ -35,9 +36,10 @@ import (
 // Request is one unit of work for a worker: the honest layout of a session
 // (C == nil) or one corrupted run.
 type Request struct {
-	ID int         `json:"id"`
-	S  Session     `json:"s"`
-	C  *Corruption `json:"c,omitempty"`
+	ID        int         `json:"id"`
+	S         Session     `json:"s"`
+	C         *Corruption `json:"c,omitempty"`
+	WantTrans bool        `json:"want_trans,omitempty"` // with the layout: the honest transcripts
 }
 
 // Reply is the worker's answer.
@@ -46,6 +48,7 @@ type Reply struct {
 	Skip      string   `json:"skip,omitempty"`
 	Lens      [2]int   `json:"lens"`
 	Layout    []Seg    `json:"layout,omitempty"`
+	Trans     []string `json:"trans,omitempty"` // hex, per direction
 	LayoutErr string   `json:"layout_err,omitempty"`
 	Kind      string   `json:"kind,omitempty"`
 	Hits      int      `json:"hits"`
@@ -153,6 +156,9 @@ func handle(req Request) (rep Reply) {
 	}
 	if req.C == nil {
 		rep.Layout = h.Layout
+		if req.WantTrans {
+			rep.Trans = []string{hex.EncodeToString(h.Trans[0]), hex.EncodeToString(h.Trans[1])}
+		}
 		return
 	}
 	rep.Kind = kindAt(h.Layout, req.C.Dir, req.C.Off)
